@@ -113,6 +113,10 @@ def restart_items(tier):
         for k in (1, 2):
             for flags in ((False, False), (True, False), (False, True)):
                 out.append((sp, dict(o, resume_from=k, restart_flags=list(flags))))
+    # stopped at step k, written to JSON, read into a new project and continued there (placement state has to survive the round trip)
+    for sp, o in items(tier)[:: (4 if tier == "quick" else 2)]:
+        for k in (1, 2, 3):
+            out.append((sp, dict(o, resume_from=k, resume_via_json=True)))
     return out
 
 
